@@ -78,6 +78,14 @@ def AnnotSound (I : Interp α) (ρ : Nat → Tensor α) : Term → Prop
   | .nil => True
   | .cons t ts => AnnotSound I ρ t ∧ AnnotSound I ρ ts
 
+/-- product of the first `n` extents -/
+def prodTo (d : Nat → Nat) : Nat → Nat
+  | 0 => 1
+  | n + 1 => prodTo d n * d n
+
+/-- number of elements of a tensor -/
+def numel (t : Tensor α) : Nat := prodTo t.dim t.rank
+
 /-- What is assumed of the interpretation (ONNX operator facts used by the rules). `WT` is
     run-time well-typedness of a tensor (its elements belong to its element type). -/
 structure Laws (I : Interp α) (WT : Tensor α → Prop) : Prop where
@@ -92,9 +100,10 @@ structure Laws (I : Interp α) (WT : Tensor α → Prop) : Prop where
   swish : ∀ v, I.fn "Mul" "" [v, I.fn "Sigmoid" "" [v]] = I.fn "Swish" "" [v]
   swish' : ∀ v, I.fn "Mul" "" [I.fn "Sigmoid" "" [v], v] = I.fn "Swish" "" [v]
   /-- Reshape facts (ONNX semantics, assumed): a reshape of a reshape is the outer reshape; a
-      reshape that does not change rank and extents is the identity; reshapes commute with unary
+      reshape keeps the number of elements; a reshape that does not change rank and extents is the identity; reshapes commute with unary
       pointwise operators and casts. -/
   reshape_reshape : ∀ (x s1 s2 : Tensor α), I.reshape (I.reshape x s1) s2 = I.reshape x s2
+  reshape_numel : ∀ (x s : Tensor α), numel (I.reshape x s) = numel x
   reshape_same : ∀ (x s : Tensor α), (I.reshape x s).rank = x.rank →
     (∀ k, k < x.rank → (I.reshape x s).dim k = x.dim k) → I.reshape x s = x
   reshape_pw : ∀ (f : List α → α) (x s : Tensor α), pw f [I.reshape x s] = I.reshape (pw f [x]) s
